@@ -414,4 +414,16 @@ pub mod oracle {
         let rm = ((b >> 3) & 0xF) as u8;
         Some(ArmEntry { load_addr, rt, rm, written: 1 << rt })
     }
+
+    // helpers for the function contracts on the A64 emitters (bit arrays -> numbers)
+    pub fn pack2(b: &[bool; 2]) -> u8 {
+        (b[0] as u8) | ((b[1] as u8) << 1)
+    }
+    pub fn pack5(b: &[bool; 5]) -> u8 {
+        (b[0] as u8) | ((b[1] as u8) << 1) | ((b[2] as u8) << 2) | ((b[3] as u8) << 3) | ((b[4] as u8) << 4)
+    }
+    pub fn pack32(b: &[bool; 32]) -> u32 {
+        // loop-free on purpose (used inside function contracts)
+        ((b[0] as u32) << 0) | ((b[1] as u32) << 1) | ((b[2] as u32) << 2) | ((b[3] as u32) << 3) | ((b[4] as u32) << 4) | ((b[5] as u32) << 5) | ((b[6] as u32) << 6) | ((b[7] as u32) << 7) | ((b[8] as u32) << 8) | ((b[9] as u32) << 9) | ((b[10] as u32) << 10) | ((b[11] as u32) << 11) | ((b[12] as u32) << 12) | ((b[13] as u32) << 13) | ((b[14] as u32) << 14) | ((b[15] as u32) << 15) | ((b[16] as u32) << 16) | ((b[17] as u32) << 17) | ((b[18] as u32) << 18) | ((b[19] as u32) << 19) | ((b[20] as u32) << 20) | ((b[21] as u32) << 21) | ((b[22] as u32) << 22) | ((b[23] as u32) << 23) | ((b[24] as u32) << 24) | ((b[25] as u32) << 25) | ((b[26] as u32) << 26) | ((b[27] as u32) << 27) | ((b[28] as u32) << 28) | ((b[29] as u32) << 29) | ((b[30] as u32) << 30) | ((b[31] as u32) << 31)
+    }
 }
